@@ -35,6 +35,15 @@ KAPPA_MAX = 1e10
 
 
 # ---------------------------------------------------------------- oracle
+def nrm(v, axis=None):
+    """Euclidean norm that neither overflows nor underflows in the squares."""
+    v = np.asarray(v, dtype=float)
+    mx = np.max(np.abs(v), axis=axis, keepdims=axis is not None) if v.size else 0.0
+    mx = np.where(mx > 0, mx, 1.0)
+    out = np.linalg.norm(v / mx, axis=axis) * (np.squeeze(mx, axis=axis) if axis is not None else mx)
+    return out if axis is not None else float(out)
+
+
 def judge(kind, A, y, x, r, ctx):
     """-> list of (mechanism, detail, slackname, slack).  Kappa-free backward-error tolerances:
     a stable solver returns the exact solution of a problem perturbed by c*m*eps relative."""
@@ -48,22 +57,22 @@ def judge(kind, A, y, x, r, ctx):
         return [(f"{kind}:shape", f"clp {x.shape} residual {r.shape} for matrix {A.shape}", None, 0.0)]
     if not (np.isfinite(x).all() and np.isfinite(r).all()):
         return [(f"{kind}:non-finite", "non-finite clp/residual for finite input", None, 0.0)]
-    nA = float(np.linalg.norm(A))
-    ny = float(np.linalg.norm(y))
-    scale = nA * float(np.linalg.norm(x)) + ny
+    nA = nrm(A)
+    ny = nrm(y)
+    scale = nA * nrm(x) + ny
     cm = T.C * T.EPS * max(m, n)
     # identity r = y - A x
     t = cm * scale + T.FLOOR
-    s = T.slack(np.linalg.norm(y - A @ x - r), t)
+    s = T.slack(nrm(y - A @ x - r), t)
     out.append((f"{kind}:identity", "residual != data - matrix @ clp", "identity", s))
-    coln = np.linalg.norm(A, axis=0)
+    coln = nrm(A, axis=0)
     g = A.T @ r
     tj = cm * coln * scale + T.FLOOR
     if kind == "vp":
         s = float(np.max(np.abs(g) / tj))
         out.append(("vp:orthogonality", f"residual not orthogonal to column {int(np.argmax(np.abs(g) / tj))}", "orthogonality", s))
         xr, rr, rank, sv = lstsq_ref(A, y)
-        s = T.slack(np.linalg.norm(r) - np.linalg.norm(rr), cm * scale + T.FLOOR)
+        s = T.slack(nrm(r) - nrm(rr), cm * scale + T.FLOOR)
         out.append(("vp:optimum", f"|r|={np.linalg.norm(r):.6e} > independent optimum {np.linalg.norm(rr):.6e}", "optimum", s))
     else:
         if (x < 0).any():
@@ -76,7 +85,7 @@ def judge(kind, A, y, x, r, ctx):
             out.append(("nnls:complementary-slackness", "gradient non-zero on a positive clp", "compl", s))
         if n <= 8:
             rbest, xbest, S = nnls_enum(A, y)
-            s = T.slack(np.linalg.norm(r) - rbest, cm * scale + T.FLOOR)
+            s = T.slack(nrm(r) - rbest, cm * scale + T.FLOOR)
             out.append(("nnls:optimum", f"|r|={np.linalg.norm(r):.6e} > enumerated optimum {rbest:.6e} (support {S})", "optimum", s))
             ctx["n_active"] = int(n - len(S))
     return out
@@ -90,7 +99,7 @@ def scipy_bug_model(A, y, x, r):
 
     try:
         xs, _ = nnls(A, y)
-    except RuntimeError:
+    except Exception:  # noqa
         return False
     return bool(np.array_equal(xs, x) and np.array_equal(y - np.dot(A, xs), r))
 
@@ -107,8 +116,8 @@ def f13_predicate(A, y, kappa):
     m, n = A.shape
     mm = max(m, n)
     tol_abs = 10 * mm * T.EPS
-    coln = np.linalg.norm(A, axis=0)
-    ny = float(np.linalg.norm(y))
+    coln = nrm(A, axis=0)
+    ny = nrm(y)
     tj = T.C * T.EPS * mm * coln * ny
     return {
         "ill_conditioned": bool(kappa * kappa >= T.C * mm),
@@ -120,6 +129,9 @@ def report(kind, A, y, x, r, rec, case, kappa=None, refs=None):
     """A, y: pristine copies of the inputs; refs: the very objects the function was called with."""
     ctx = {}
     res = judge(kind, A, y, x, r, ctx)
+    if any(s != s for _, _, _, s in res):
+        rec.skip("oracle arithmetic overflowed (non-finite certificate)")
+        return ctx, False
     rec.count("certificates_checked")
     bad = [(mech, det, s) for mech, det, name, s in res if s > 1.0]
     if kappa is None:
@@ -335,7 +347,7 @@ def one_direct(rng, rec, log, case=None):
 
             try:
                 nnls(Al, yl)
-            except RuntimeError as e2:
+            except Exception as e2:  # noqa
                 finding = "F13" if type(e2) is type(e) and str(e2) == str(e) else None
         rec.violation(f"{'F13:' if finding else ''}{case['fn']}:raises", dict(case, kappa=kappa, regime=pred), f"{type(e).__name__}: {e}", finding)
         rec.case(None, False)
